@@ -22,6 +22,38 @@ type c18Plan struct {
 	Order      []int       `json:"order"`
 	BurstEvery int         `json:"burst_every"`
 	BurstLen   int         `json:"burst_len"`
+	// Broken: scripts whose load is aborted (mixed indentation inside an open block, end of input inside a
+	// block, a syntax error, a read error). Order values >= len(Runners) are attempts to load one of them:
+	// what a failed creation leaves behind must not reach the runners created or stepped around it.
+	Broken []World `json:"broken,omitempty"`
+}
+
+var brokenTails = []string{
+	"title: Brk\n---\n-> a\n    x\n \ty\n===\n",
+	"title: Brk\n---\n-> a\n    <<if true>>\n        deep\n",
+	"title: Brk\n---\n<<set $x = >>\n===\n",
+	"title: Brk\n---\n-> a\n\tx\n        y\n    -> b\n \t z\n===\n",
+	"title: Brk\n---\n-> a\n    -> b\n        -> c\n\t\t    mixed\n===\n",
+}
+
+// brokenWorld: the scripts of w followed by a node that makes the load fail half-way.
+func brokenWorld(tp *Tape, w *World) World {
+	text := ""
+	for _, r := range w.Readers {
+		text += string(r.bytes())
+		if !strings.HasSuffix(text, "\n") {
+			text += "\n"
+		}
+	}
+	b := World{Host: w.Host}
+	k := tp.Int(0, len(brokenTails), "brokenkind")
+	if k == len(brokenTails) {
+		rs := ReaderSpec{Text: text, ErrAt: 1 + tp.Int(0, len(text), "brokenerrat")}
+		b.Readers = []ReaderSpec{rs}
+		return b
+	}
+	b.Readers = []ReaderSpec{{Text: text + brokenTails[k]}}
+	return b
 }
 
 func c18Gen(tp *Tape, env *Env, maxRunners int) (*c18Plan, []*Program) {
@@ -72,6 +104,20 @@ func c18Gen(tp *Tape, env *Env, maxRunners int) (*c18Plan, []*Program) {
 	}
 	for i := 0; i < total; i++ {
 		cp.Order = append(cp.Order, tp.Int(0, nr-1, "turn"))
+	}
+	if tp.Chance(30, "brokenloads") {
+		nb := tp.Int(1, 2, "nbroken")
+		for k := 0; k < nb; k++ {
+			cp.Broken = append(cp.Broken, brokenWorld(tp, &worlds[tp.Int(0, nprog-1, "brokenof")]))
+			for j := tp.Int(1, 3, "brokentimes"); j > 0; j-- {
+				// mostly early: before some runner has been created
+				at := tp.Int(0, len(cp.Order), "brokenat")
+				if tp.Chance(60, "brokenearly") {
+					at = tp.Int(0, min(3, len(cp.Order)), "brokenatearly")
+				}
+				cp.Order = append(cp.Order[:at], append([]int{nr + k}, cp.Order[at:]...)...)
+			}
+		}
 	}
 	return cp, progs
 }
@@ -226,6 +272,19 @@ func c18Exec(plan *Plan, st *Stats) *Violation {
 		for _, r := range cp.Order {
 			if r < nr {
 				step(r)
+			} else if k := r - nr; k < len(cp.Broken) {
+				// an aborted creation in between
+				if d, err := newDyn(&cp.Broken[k], bubble); err == nil {
+					d.h.Close()
+				} else if st != nil {
+					st.fault("aborted_load")
+					for o := range dyn {
+						if dyn[o] == nil {
+							st.probe("aborted_load_before_a_creation")
+							break
+						}
+					}
+				}
 			}
 		}
 		for r := 0; r < nr; r++ {
